@@ -100,9 +100,7 @@ class OwningSetOp(Contract):
                 w2 != w, z3.Select(c1.arr("SetWrapper._data"), w2) == z3.Select(c0.arr("SetWrapper._data"), w2)))
         out["other_parents"] = z3.ForAll([n], z3.Implies(n != v, c1.get(self.parent_field, n) == c0.get(self.parent_field, n)))
         from pyvc.core import Card
-        if self.op == "add":
-            out["card"] = Card(d1) == Card(d0) + z3.If(z3.Select(d0, VRef(v)), 0, 1)
-        else:
+        if self.op == "discard":        # (used by the termination argument of clear())
             out["card"] = Card(d1) == Card(d0) - z3.If(z3.Select(d0, VRef(v)), 1, 0)
         # exported for callers (setters, constructors): how attachment changed
         lem = self.lemmas(c0, c1, a, res)
